@@ -3,7 +3,7 @@
     MessageTransform subscriber decorator in front of a subscription). *)
 From WM Require Import Base.Prelude Message.Model GoChannel.Sub GoChannel.SubProofs
                        GoChannel.Reg GoChannel.RegWitness GoChannel.RegLocks GoChannel.RegInv GoChannel.RegSend GoChannel.RegLive.
-From WM Require Decorator.Pump Decorator.PumpProofs.
+From WM Require Decorator.Pump Decorator.PumpProofs GoChannel.SubInvX GoChannel.SubLive.
 
 (** per subscription: for every buffer size, any number of Senders, every consumer behaviour,
     every moment of the cancel/Close and every schedule - no send on a closed channel, no
@@ -28,6 +28,22 @@ Theorem C07_teardown_never_stuck_partial : forall cap0 fx ls,
   end.
 Proof. exact teardown_never_stuck. Qed.
 Print Assumptions C07_teardown_never_stuck_partial.
+
+(** ... and it TERMINATES: once the teardown has been woken, every run of steps that needs neither
+    the consumer (receive, Ack, Nack, hand-off) nor a new Sender is at most [measure] steps long
+    (a Sender's jump back to the loop head is paid for by the consumer's Nack), and where such a
+    run cannot be extended the teardown is done, s.closing and the output channel are closed
+    (exactly once: no panic), the sending lock is free and every Sender that was started has
+    returned - for every buffer size, every earlier history [ls0], both loop variants, whatever
+    the scheduler does *)
+Theorem C07_teardown_terminates : forall cap0 fx ls0 ls s',
+  let s := srun (sinit cap0 fx) ls0 in
+  let T := SubLive.spawned ls0 in
+  SubLive.woken (Sub.td s) = true -> forallb SubLive.quiet ls = true -> sreplay s ls = Some s' ->
+  length ls + SubLive.measure T s' <= SubLive.measure T s
+  /\ ((forall l, SubLive.quiet l = true -> sstep s' l = None) -> SubLive.finished s').
+Proof. exact SubLive.teardown_terminates. Qed.
+Print Assumptions C07_teardown_terminates.
 
 (** "without panic ... whatever publishers are doing ... persistent mode" is FALSE of the pinned
     code (D7): a persistent Publish that passed the closed check runs after Close set the log to
